@@ -90,9 +90,19 @@ def make_job(hid, v):
         steps.append({"footprint": PFX})
         steps.append({"consult" if op["api"] == "consult" else "load": text, "module": src_name(op)})
         steps.append({"footprint": PFX})
-        for p in v["steps"][j]["probes"]:
+        for p in probes_of(v, j):
             steps.append({"q": probe_text(p["key"]), "max": 3})
-    return {"id": hid, "fresh": True, "steps": steps, "timeout": 120}
+    return {"id": hid, "fresh": True, "steps": steps, "timeout": 300}
+
+
+def probes_of(v, j):
+    """the probe outcomes expected after step j: an empty list in the vector stands for 'as after the previous load'
+    (the specification marks the load as the identity on the state)"""
+    while j > 0 and not v["steps"][j]["probes"]:
+        if not v["steps"][j]["noop"]:
+            raise common.ToolError("vector without probes at a state-changing step")
+        j -= 1
+    return v["steps"][j]["probes"]
 
 
 def compare_probe(p, out):
@@ -119,8 +129,11 @@ def compare_probe(p, out):
     return None
 
 
-def hist_text(v):
-    return " ; ".join("%s:%s(%s) T%d" % (op["src"], op["api"], op["kind"], op["slot"]) for op in v["ops"])
+def hist_text(v, upto=None):
+    """the session up to step `upto` (1-based), as the slot sequence: 1 = s1 loads T1, 2 = s1 loads T2, 3 = s2 loads T3"""
+    ops = v["ops"] if upto is None else v["ops"][:upto]
+    return "s1=%s/%s s2=%s/%s%s slots %s" % (v["apis"][0], v["kinds"][0], v["apis"][1], v["kinds"][1], " same-family" if v["same"] else "",
+                                           "".join(str(op["slot"]) for op in ops))
 
 
 def flags_of(v, op):
@@ -152,11 +165,13 @@ def execute(vecs, workers):
 def judge(rep, vecs, jobs, results, tier):
     """answers (spec -> impl) and the footprint trace (impl -> spec)"""
     events, index = [], []
+    rep.sessions = 0
     for hid, v in enumerate(vecs):
         r = results.get(hid, {"crash": "missing"})
         ht = hist_text(v)
+        rep.sessions += 1
         if "crash" in r:
-            rep.violation("history [%s] texts %s: %s" % (ht, json.dumps(v["codes"]), r["crash"]), {"vector": v, "crash": r["crash"]})
+            rep.violation("session [%s] texts %s: %s" % (ht, json.dumps(v["codes"]), r["crash"]), {"vector": v, "crash": r["crash"]})
             continue
         res = r["res"]
         pos = 0
@@ -167,8 +182,8 @@ def judge(rep, vecs, jobs, results, tier):
             fl = flags_of(v, op)
             pre, ld, post = res[pos], res[pos + 1], res[pos + 2]
             pos += 3
-            where = "history [%s] step %d (T%d = fam %s cs %d flags %s)" % (
-                ht, j + 1, op["slot"], op["code"]["fam"], op["code"]["cs"], ",".join(fl) or "-")
+            where = "session [%s] step %d (T%d = fam %s cs %d flags %s)" % (
+                hist_text(v, j + 1), j + 1, op["slot"], op["code"]["fam"], op["code"]["cs"], ",".join(fl) or "-")
             rep.case(("load", op["api"], op["kind"], "noop" if st["noop"] else "change", min(st["k"], 3), tuple(fl), op["code"]["cs"]))
             if "panic" in ld or "footprint" not in pre or "footprint" not in post:
                 rep.violation("%s: the load panicked: %s" % (where, ld.get("panic", json.dumps(post)[:200])), {"vector": v, "step": j})
@@ -179,7 +194,7 @@ def judge(rep, vecs, jobs, results, tier):
             hev.append({"ev": "loaded", "src": op["src"], "kind": op["kind"], "api": op["api"],
                         "code": {"fam": op["code"]["fam"], "cs": op["code"]["cs"], "fl": fl},
                         "pre": pre["footprint"], "post": post["footprint"], "_h": hid, "_j": j})
-            for p in st["probes"]:
+            for p in probes_of(v, j):
                 out = res[pos]
                 pos += 1
                 d = compare_probe(p, out)
@@ -210,9 +225,9 @@ def judge(rep, vecs, jobs, results, tier):
             info.setdefault("%s/%s" % (vd["ctr"], vd["kind"]), 0)
             info["%s/%s" % (vd["ctr"], vd["kind"])] += 1
             continue
-        sig = "footprint counter=%s api=%s init=%d %s k=%d: %+d (%d -> %d) source kind=%s flags=%s cs=%d; history [%s] step %d" % (
+        sig = "footprint counter=%s api=%s init=%d %s k=%d: %+d (%d -> %d) source kind=%s flags=%s cs=%d; session [%s] step %d" % (
             vd["ctr"], e["api"], 1 if "init" in fl else 0, vd["kind"], vd["k"], vd["got"] - vd["want"], vd["want"], vd["got"],
-            e["kind"], ",".join(fl) or "-", e["code"]["cs"], hist_text(v), e["_j"] + 1)
+            e["kind"], ",".join(fl) or "-", e["code"]["cs"], hist_text(v, e["_j"] + 1), e["_j"] + 1)
         rep.violation(sig, {"vector": v, "step": e["_j"], "verdict": vd, "event": {k: x for k, x in e.items() if not k.startswith("_")}})
     rep.extra["events_validated"] = sum(1 for e in events if e["ev"] == "loaded")
     rep.extra["reloads_judged"] = sum(1 for e in events if e["ev"] == "loaded" and vecs[e["_h"]]["steps"][e["_j"]]["noop"]
@@ -270,7 +285,7 @@ def run(tier):
         rep.sample({"history": hist_text(v), "T1": render_text(v["texts"][0]), "T2": render_text(v["texts"][1]),
                     "T3": render_text(v["texts"][2]),
                     "expected_after_last_load": {p["key"][0]: terms.show(terms.from_tla(p["l"] if p["l"]["t"] != "v" else p["e"]))
-                                                 for p in v["steps"][-1]["probes"]}})
+                                                 for p in probes_of(v, len(v["steps"]) - 1)}})
     rep.traces = len(vecs)
     rep.exhaustive = True
     rep.assumptions = ["TLC", "spec/Prolog.tla", "text renderer of props/C35.py", "verif-hooks footprint accessor",
